@@ -24,7 +24,7 @@ for p in props:
         "evidence_file": "evidence/%s.json" % pid,
         "replay_cmd_template": "./check %s --replay {path}" % pid,
         "engine": "coq-model+correspondence",
-        "level_claimed": {"category": m.LEVEL,
+        "level_claimed": {"category": n.get("category", m.LEVEL),
                           "text": n.get("text", m.EXPLANATION),
                           "design_ref": "DESIGN.md §5 %s" % pid},
         "level_note": n.get("note", "Trusted: " + "; ".join(m.TRUSTED) + ". Assumed: " + "; ".join(m.ASSUMPTIONS)),
